@@ -96,6 +96,22 @@ def simplify(e, pc):
                     return negate(x.test) if positive else x.test
             return node
 
+        def visit_Subscript(self, node):
+            node = self.generic_visit(node)
+            # {k: f(k) for k in S}[x]  ->  f(x)      (x is assumed to be a key: otherwise the original raises)
+            d = node.value
+            if isinstance(d, ast.DictComp) and len(d.generators) == 1 and not d.generators[0].ifs and \
+                    isinstance(d.generators[0].target, ast.Name) and isinstance(d.key, ast.Name) and d.key.id == d.generators[0].target.id \
+                    and not isinstance(node.slice, (ast.Slice, ast.Tuple)):
+                k = d.key.id
+                arg = node.slice
+
+                class Sub(ast.NodeTransformer):
+                    def visit_Name(self, n):
+                        return clone(arg) if n.id == k else n
+                return Sub().visit(clone(d.value))
+            return node
+
         def visit_UnaryOp(self, node):
             node = self.generic_visit(node)
             if isinstance(node.op, ast.Not) and isinstance(node.operand, ast.UnaryOp) and isinstance(node.operand.op, ast.Not):
@@ -110,8 +126,8 @@ def definitely_not_none(e):
 
 
 class Event:
-    def __init__(self, kind, name, value, pc, stmt):
-        self.kind, self.name, self.value, self.pc, self.stmt = kind, name, value, list(pc), stmt
+    def __init__(self, kind, name, value, pc, stmt, loops=()):
+        self.kind, self.name, self.value, self.pc, self.stmt, self.loops = kind, name, value, list(pc), stmt, list(loops)
 
     def guard_text(self):
         return ' and '.join(('%s' if pol else 'not (%s)') % U(c) for c, pol in self.pc) or 'True'
@@ -125,12 +141,24 @@ class BlockEval:
         self.loop_ok = loop_ok      # predicate: which For loops may be entered (body walked once, symbolically)
         self.loops = []             # (loop stmt, env at entry)
         self.loops_done = []        # (loop stmt, env at entry, env after one symbolic pass over the body, pc)
-        self.calls = []             # expression statements that are calls (stmt, expanded call, pc)
+        self.calls = []             # expression statements that are calls (stmt, expanded call, pc, enclosing loops)
+        self.loopstack = []         # (target, expanded iterable) of the loops being walked
+        self.stores = []            # attribute stores: (target text, expanded value, stmt)
+        self.objects = set()        # names mutated through method calls
+        self.inits = {}             # their initial values
 
     def sub(self, e, pc, env=None):
         return simplify(Subst(self.env if env is None else env, pc).visit(clone(e)), pc)
 
     def run(self, stmts, pc=()):
+        # names that are mutated through method calls denote objects: they are never replaced by their initial value
+        for st_ in stmts:
+            for n in ast.walk(st_):
+                if isinstance(n, ast.Expr) and isinstance(n.value, ast.Call) and isinstance(n.value.func, ast.Attribute) \
+                        and isinstance(n.value.func.value, ast.Name):
+                    self.objects.add(n.value.func.value.id)
+                if isinstance(n, ast.AugAssign) and isinstance(n.target, ast.Name) and isinstance(n.op, (ast.BitOr, ast.BitAnd)):
+                    self.objects.add(n.target.id)
         self.block(stmts, list(pc))
         return self.env
 
@@ -144,24 +172,24 @@ class BlockEval:
             c = s.value
             if U(c.func).split('.')[-1] == 'append' and U(c.func).split('.')[0] in ('np', 'numpy') and len(c.args) == 2 \
                     and U(c.args[0]) == s.targets[0].id:
-                self.events.append(Event('append', s.targets[0].id, self.sub(c.args[1], pc), pc, s))
+                self.events.append(Event('append', s.targets[0].id, self.sub(c.args[1], pc), pc, s, self.loopstack))
                 return True
         if isinstance(s, ast.Assign) and len(s.targets) == 1 and isinstance(s.targets[0], ast.Name) and isinstance(s.value, ast.BinOp) \
                 and isinstance(s.value.op, ast.Add) and U(s.value.left) == s.targets[0].id and isinstance(s.value.right, ast.List) \
                 and len(s.value.right.elts) == 1:
-            self.events.append(Event('append', s.targets[0].id, self.sub(s.value.right.elts[0], pc), pc, s))
+            self.events.append(Event('append', s.targets[0].id, self.sub(s.value.right.elts[0], pc), pc, s, self.loopstack))
             return True
         if isinstance(s, ast.Expr) and isinstance(s.value, ast.Call) and isinstance(s.value.func, ast.Attribute) \
                 and s.value.func.attr == 'append' and len(s.value.args) == 1 and isinstance(s.value.func.value, ast.Name):
-            self.events.append(Event('append', s.value.func.value.id, self.sub(s.value.args[0], pc), pc, s))
+            self.events.append(Event('append', s.value.func.value.id, self.sub(s.value.args[0], pc), pc, s, self.loopstack))
             return True
         if isinstance(s, ast.AugAssign) and isinstance(s.op, ast.Add) and isinstance(s.target, ast.Name) and isinstance(s.value, ast.List) \
                 and len(s.value.elts) == 1:
-            self.events.append(Event('append', s.target.id, self.sub(s.value.elts[0], pc), pc, s))
+            self.events.append(Event('append', s.target.id, self.sub(s.value.elts[0], pc), pc, s, self.loopstack))
             return True
         if isinstance(s, ast.Assign) and len(s.targets) == 1 and isinstance(s.targets[0], ast.Subscript) \
                 and isinstance(s.targets[0].value, ast.Name):
-            self.events.append(Event('store', s.targets[0].value.id, self.sub(s.value, pc), pc, s))
+            self.events.append(Event('store', s.targets[0].value.id, self.sub(s.value, pc), pc, s, self.loopstack))
             return True
         return False
 
@@ -184,7 +212,7 @@ class BlockEval:
             return
         if isinstance(s, ast.Expr):
             if isinstance(s.value, ast.Call):
-                self.calls.append((s, self.sub(s.value, pc), list(pc)))
+                self.calls.append((s, self.sub(s.value, pc), list(pc), list(self.loopstack)))
             return
         if isinstance(s, (ast.Pass, ast.Assert, ast.Import, ast.ImportFrom)):
             return
@@ -204,7 +232,8 @@ class BlockEval:
             self.env = out
             return
         if isinstance(s, ast.For) and self.loop_ok is not None and self.loop_ok(s) and not s.orelse:
-            entry = dict(self.env)
+            entry = dict(self.inits)
+            entry.update(self.env)
             self.loops.append((s, entry))
             assigned = set()
             for n in ast.walk(s):
@@ -214,7 +243,9 @@ class BlockEval:
             for k in assigned:
                 self.env[k] = ast.Name(id=k, ctx=ast.Load())
             n_ev = len(self.events)
+            self.loopstack.append((s.target, self.sub(s.iter, pc, env=entry)))
             self.block(s.body, pc)
+            self.loopstack.pop()
             self.loops.pop()
             body_env = dict(self.env)
             assigned |= {e.name for e in self.events[n_ev:]}
@@ -226,7 +257,10 @@ class BlockEval:
                             % (self.where, getattr(s, 'lineno', '?'), U(s)[:80]))
 
     def assign(self, t, v, s):
-        if isinstance(t, ast.Name):
+        if isinstance(t, ast.Name) and t.id in self.objects:
+            self.inits[t.id] = v
+            self.env.pop(t.id, None)
+        elif isinstance(t, ast.Name):
             self.env[t.id] = v
         elif isinstance(t, (ast.Tuple, ast.List)) and isinstance(v, (ast.Tuple, ast.List)) and len(v.elts) == len(t.elts):
             for a, b in zip(t.elts, v.elts):
@@ -234,4 +268,6 @@ class BlockEval:
         elif isinstance(t, (ast.Tuple, ast.List)):
             for i, a in enumerate(t.elts):
                 self.assign(a, ast.Subscript(value=v, slice=ast.Constant(value=i), ctx=ast.Load()), s)
-        # attribute / subscript stores outside loops do not bind names
+        elif isinstance(t, ast.Attribute):
+            self.stores.append((U(t), v, s))
+        # subscript stores outside loops do not bind names
